@@ -2,7 +2,7 @@
 from vf import gen, corecheck as cc, framework as fw, model_pubsub
 
 RULE = ("ordering profile (several senders, batching settings, pause/resume of the recipient, poison pills with traffic before and "
-        "after, sends immediately followed by quit, up to three loop runs per scenario) plus the messaging profile; pill_paused_restart, pill_pause_in_batch (pill behind accumulated events whose handler pauses the module) and batch_then_mail_at_quit (accumulated events + unread mail at loop stop) profiles; both driving modes. "
+        "after, sends immediately followed by quit, up to three loop runs per scenario) plus the messaging profile; pill_paused_restart, pill_pause_in_batch (pill behind accumulated events whose handler pauses the module) batch_then_mail_at_quit (accumulated events + unread mail at loop stop) and full_mailbox (8193-9000 messages told to one module while its mailbox fills up: whatever is delivered keeps send order) profiles; both driving modes. "
         "Unique payload tokens make the check a linear scan per recipient: a first-time delivery whose send interval ended before "
         "the send interval of an earlier delivered message began is a reordering (stash replays, identified by their nesting inside "
         "m_mod_unstash, are excluded); nothing sent after an accepted pill may be delivered before the recipient left RUNNING; when a "
@@ -44,6 +44,12 @@ def run(tier):
             c = cc.Case()
             c.sc, c.profile, c.mode, c.seed = sc, "batch_then_mail_at_quit", m, seed * 1000 + k
             cases.append(c)
+
+    # more than 8192 messages told to one module (paused or running): what is delivered arrives in send order
+    for k in range(6 if tier == "quick" else 100):
+        c = cc.Case()
+        c.sc, c.profile, c.mode, c.seed = gen.gen_full_mailbox_broadcast(seed * 1000 + k), "full_mailbox", ("loop" if k % 2 else "dispatch"), seed * 1000 + k
+        cases.append(c)
 
     def oracle(case):
         return model_pubsub.check_c08(case, stats)
